@@ -130,6 +130,37 @@ example : (serve (fun _ => false) [.start, .chars, .stop, .chars, .start, .stop]
 example : (serve (fun _ => false) [.start, .chars, .stop, .chars, .start, .stop]).outcome = .eof := by decide
 example : (serve (fun _ => false) [.start, .bad, .stop, .chars]).outcome = .stopped := by decide
 
+/-! ## Lock discipline of session.go
+
+A path that leaves a function of session.go with `s.in`, `s.out` or `s.stateMutex` held wedges
+the session for ever (Serve blocks in `sendError` / `Close`).  The harness classifies every
+`Lock()` and every unmatched `Unlock()` of session.go syntactically (`harness/c09/lockfacts.go`,
+regenerated on every run); the obligation is that every classification is one of the sound
+patterns, that locks are handed to a caller only by the two functions whose result releases
+them, and that the two `Close` methods which release a lock they did not take do so by `defer`
+or with nothing but the "already closed" guard in front of the release. -/
+
+def lockOk (f : String × String × Nat) : Bool :=
+  match f.2.1 with
+  | "paired-defer" | "paired-explicit" => true
+  | "handoff" => f.1 == "xmpp.(*Session).TokenWriter" || f.1 == "xmpp.(*Session).TokenReader"
+  | "release-defer" => f.1 == "xmpp.(*lockWriteCloser).Close" || f.1 == "xmpp.(*lockReadCloser).Close"
+  | "release-plain" =>
+    (f.1 == "xmpp.(*lockWriteCloser).Close" || f.1 == "xmpp.(*lockReadCloser).Close") && f.2.2 ≤ 1
+  | _ => false
+
+def lockDisciplineOk : Option (List (String × String × Nat)) → Bool
+  | some l => !l.isEmpty && l.all lockOk
+  | none => false
+
+/-- Every `Lock()` in session.go is released on every path by one of the recognised patterns
+(or handed to the returned closer), and the closers release unconditionally. -/
+theorem C09_lock_discipline : lockDisciplineOk XmppModel.Generated.C09.lockFacts = true := by
+  decide +kernel
+
+example : lockOk ("xmpp.(*lockWriteCloser).Close", "release-plain", 2) = false := by decide
+example : lockOk ("xmpp.(*Session).Encode", "handoff", 0) = false := by decide
+
 /-! ## Known finding: the SCRAM client of the SASL dependency (negotiation, before Serve)
 
 Full-strength statement (false for mellium.im/sasl v0.3.2, see `Model/ScramLoop.lean`):
